@@ -30,62 +30,47 @@ func Equal(x, y any) bool {
 }
 
 func equalValue(x, y reflect.Value) bool {
-	// Copied from src/reflect/deepequal.go, omitting the visited check (because JSON
+	// Adapted from src/reflect/deepequal.go, omitting the visited check (because JSON
 	// values are trees).
+
+	// Pointers and interfaces carry a JSON value; they are not part of it.
+	x, y = indirectValue(x), indirectValue(y)
 	if !x.IsValid() || !y.IsValid() {
 		return x.IsValid() == y.IsValid()
 	}
 
-	// Treat numbers specially.
+	// Treat numbers specially. A number is equal only to a number.
 	rx, ok1 := jsonNumber(x)
 	ry, ok2 := jsonNumber(y)
-	if ok1 && ok2 {
-		return rx.Cmp(ry) == 0
+	if ok1 || ok2 {
+		return ok1 && ok2 && rx.Cmp(ry) == 0
+	}
+	isList := func(v reflect.Value) bool { return v.Kind() == reflect.Array || v.Kind() == reflect.Slice }
+	if isList(x) && isList(y) {
+		// Slices and arrays both represent JSON arrays.
+		if x.Kind() == reflect.Slice && y.Kind() == reflect.Slice {
+			if x.IsNil() != y.IsNil() {
+				return false
+			}
+			// Special case for []byte, which is common.
+			if x.Type().Elem().Kind() == reflect.Uint8 && x.Type() == y.Type() {
+				return bytes.Equal(x.Bytes(), y.Bytes())
+			}
+		}
+		if x.Len() != y.Len() {
+			return false
+		}
+		for i := range x.Len() {
+			if !equalValue(x.Index(i), y.Index(i)) {
+				return false
+			}
+		}
+		return true
 	}
 	if x.Kind() != y.Kind() {
 		return false
 	}
 	switch x.Kind() {
-	case reflect.Array:
-		if x.Len() != y.Len() {
-			return false
-		}
-		for i := range x.Len() {
-			if !equalValue(x.Index(i), y.Index(i)) {
-				return false
-			}
-		}
-		return true
-	case reflect.Slice:
-		if x.IsNil() != y.IsNil() {
-			return false
-		}
-		if x.Len() != y.Len() {
-			return false
-		}
-		if x.UnsafePointer() == y.UnsafePointer() {
-			return true
-		}
-		// Special case for []byte, which is common.
-		if x.Type().Elem().Kind() == reflect.Uint8 && x.Type() == y.Type() {
-			return bytes.Equal(x.Bytes(), y.Bytes())
-		}
-		for i := range x.Len() {
-			if !equalValue(x.Index(i), y.Index(i)) {
-				return false
-			}
-		}
-		return true
-	case reflect.Interface:
-		if x.IsNil() || y.IsNil() {
-			return x.IsNil() == y.IsNil()
-		}
-		return equalValue(x.Elem(), y.Elem())
-	case reflect.Pointer:
-		if x.UnsafePointer() == y.UnsafePointer() {
-			return true
-		}
-		return equalValue(x.Elem(), y.Elem())
 	case reflect.Struct:
 		t := x.Type()
 		if t != y.Type() {
@@ -108,13 +93,20 @@ func equalValue(x, y reflect.Value) bool {
 		if x.Len() != y.Len() {
 			return false
 		}
-		if x.UnsafePointer() == y.UnsafePointer() {
-			return true
-		}
+		// Maps with any string-kind key type and any element type represent
+		// JSON objects: look keys up by their string value.
+		ykt := y.Type().Key()
 		iter := x.MapRange()
 		for iter.Next() {
+			k := iter.Key()
+			if k.Type() != ykt {
+				if !k.CanConvert(ykt) {
+					return false
+				}
+				k = k.Convert(ykt)
+			}
 			vx := iter.Value()
-			vy := y.MapIndex(iter.Key())
+			vy := y.MapIndex(k)
 			if !vy.IsValid() || !equalValue(vx, vy) {
 				return false
 			}
@@ -136,6 +128,19 @@ func equalValue(x, y reflect.Value) bool {
 	default:
 		panic(fmt.Sprintf("unsupported kind: %s", x.Kind()))
 	}
+}
+
+// indirectValue steps through pointers and interfaces.
+// It returns the invalid Value (which represents JSON null) for a nil pointer
+// or interface.
+func indirectValue(v reflect.Value) reflect.Value {
+	for v.Kind() == reflect.Pointer || v.Kind() == reflect.Interface {
+		if v.IsNil() {
+			return reflect.Value{}
+		}
+		v = v.Elem()
+	}
+	return v
 }
 
 // hashValue adds v to the data hashed by h. v must not have cycles.
